@@ -116,6 +116,10 @@ def hostile_input(rng, valid_texts):
             return "{ f(x: " + "{a: " * depth + "1" + "}" * depth + ") }"
         return "{" * depth
     t = rng.choice(valid_texts)
+    if r < 0.30:
+        # several ANONYMOUS operations in one document (operation selection must fail: ambiguous), also next to a valid text
+        shorts = ["{ __typename }", "query { __typename }", "{ a: __typename }", "mutation { __typename }"]
+        return " ".join(rng.choice(shorts) for _ in range(rng.randint(2, 3))) if rng.random() < 0.6 else t + " { __typename }"
     if r < 0.45:
         return t
     if r < 0.55:
@@ -216,6 +220,9 @@ async def run_case(ctx, rng, index):
             opname = hostile_opname(rng, [o.name for o in base.doc.ops if o.name])
             variables = hostile_variables(rng, base.variables)
             w = world_mod.World(s, base.wseed)
+            if rng.random() < 0.3:
+                w.p_raise_odd = 0.2        # resolvers raising plain, library-derived and awkward exceptions (unprintable, odd .message, ...)
+                st.inc("requests_with_raising_resolvers")
             context = rng.choice([{"world": w}] * 6 + [None, 5, {"no": "world"}])
             if coercer:
                 coercer.issued, coercer.calls, coercer.stale = [], 0, 0
